@@ -75,6 +75,10 @@ CHECKS = {
             "model-based ReadProperty / WriteProperty / ReadPropertyMultiple histories (Hypothesis, schema-driven values) between a real client stack and a real device for every registered object type; oracle = dict model + reference encoder",
             "For each of the ~60 registered standard object types an instance is configured through the public API (generated initial values of the declared datatypes, generated writable subset), then generated histories of reads with all index classes, valid writes by construction, refused writes by construction (unknown object/property, wrong datatype, read-only, index beyond the array) and ReadPropertyMultiple with explicit references and the all/required/optional selectors run over the virtual LAN; acked writes must read back (structurally and, for the value octets, against the reference encoder), refused writes must answer the matching error and leave a full snapshot unchanged, array index rules must hold and every RPM element must equal what ReadProperty returns.",
             "Objects with special write semantics (commandable, device-object computed properties, local schedule) are excluded here; absent properties are 'unknown' to the library by design, so writes target present properties; a single element is a legitimate one-element list."),
+    "C20": ("exploration",
+            "exhaustive enumeration of every calendar date 1900..2154 against all pattern classes (datetime/calendar oracle) + Hypothesis schedules evaluated at every minute against a direct reference interpreter of clause 12.24 + timer-driven multi-day runs under virtual time",
+            "Every date of 255 years is matched against ~300 date patterns, 1200 week-n-day patterns and ~70 closed / open-ended ranges and compared with predicates written on python's calendar; generated schedules (effective periods, weekly lists with Null entries, up to four prioritised exceptions with date / range / week-n-day / calendar-reference periods, four datatypes) are evaluated at every configured time +-1/100 s and at every minute of sampled days against a direct interpreter of the clause, and the reported next-transition time is checked exactly: the reference value must be constant up to it; real LocalScheduleObjects are then run by their own timer for 3..10 virtual days across the edges of the effective period, comparing presentValue every minute and requiring the interpreter task to stay armed.",
+            "TZ=UTC; sorted distinct time-values, distinct exception priorities, fully specified or fully open range ends (the domain the statement implies); timer-driven runs use whole-minute transition times; the value outside the effective period is not judged."),
 }
 
 NOT_YET = {}
